@@ -9,7 +9,7 @@ import json, os, re, shutil, subprocess, sys, time, random, hashlib
 
 ROOT = os.path.dirname(os.path.dirname(os.path.abspath(__file__)))
 REPO = os.environ.get("VERIF_REPO", "/repo")
-BUILD = os.path.join(ROOT, "build")
+BUILD = os.environ.get("VERIF_BUILD") or os.path.join(ROOT, "build")
 SPEC = os.path.join(ROOT, "spec")
 HARNESS = os.path.join(ROOT, "harness")
 BIN = os.path.join(BUILD, "bin")
@@ -384,7 +384,7 @@ class Check:
     # ---- building
     def make(self, *targets):
         t0 = time.time()
-        rc, out = sh(["make", "-C", HARNESS, "-j%d" % NCPU, "REPO=" + REPO] + list(targets), timeout=1500)
+        rc, out = sh(["make", "-C", HARNESS, "-j%d" % NCPU, "REPO=" + REPO, "B=" + BUILD] + list(targets), timeout=1500)
         if rc != 0:
             raise Infra("harness build failed:\n" + out[-6000:])
         self.note("build %s: %.1fs" % (" ".join(targets), time.time() - t0))
